@@ -79,6 +79,22 @@ class C12(fw.Prop):
                         break
                     except Exception:  # noqa
                         pass
+            # ... and so is a header check value that is not the X-25 of the header, although the frame check sequence was then
+            # computed over what was sent - segmented or not, in every kind of frame that has a header check value
+            info = payload or b"\x01"
+            for seg in (0, 0x0800):
+                for kind, cb in (("i", ctrl), ("ui", 0x13), ("ua", 0x73)):
+                    h = (0xA000 | seg | (2 + 1 + 2 + 1 + 2 + len(info) + 2)).to_bytes(2, "big") + bytes([0x21, 0x02, 0x23, cb])
+                    good = x25_ref(h)
+                    for bad in (bytes([good[0] ^ 1, good[1]]), bytes([good[0], good[1] ^ 0x40])):
+                        content = h + bad + info
+                        parser = {"i": frames.InformationFrame, "ui": frames.UnnumberedInformationFrame, "ua": frames.UnNumberedAcknowledgmentFrame}[kind]
+                        try:
+                            parser.from_bytes(b"\x7e" + content + x25_ref(content) + b"\x7e")
+                            note += f" !wrong-header-check-value-accepted:{kind}:{'segmented' if seg else 'unsegmented'}"
+                            break
+                        except Exception:  # noqa
+                            pass
             return "ok " + fw.hx(out[-3:-1]) + note
         return fw.Case(f"crc spec {fw.hx(body)}", impl, "prop", d, tags=("frame", "fcs-has-flag" if 0x7E in x25_ref(body) else "frame"))
 
@@ -280,6 +296,9 @@ class C12(fw.Prop):
         for esc in ("7d5e", "7d5d", "7d7d", "7d33", "7d5e7d5d", "007d", "7d"):
             for pre in ("", "e6e700", "c401"):
                 yield self.make_case({"frame": True, "payload": pre + esc + "0102", "first": "e6e700aa", "ssn": rng.randrange(8), "rsn": rng.randrange(8)})
+        # frames with an empty or one-byte information field (the header check value is still followed by a frame check sequence)
+        for payload in ("", "", "00", "7e", "ff", "e6"):
+            yield self.make_case({"frame": True, "payload": payload, "first": rng.choice(["e6e700aa", "01"]), "ssn": rng.randrange(8), "rsn": rng.randrange(8)})
         yield self.make_case({"threads": True, "msg": ""})
         for _ in range(400 if deep else 40):
             yield self.make_case({"frame": True, "payload": bytes(rng.getrandbits(8) for _ in range(rng.randint(1, 60))).hex(),
